@@ -150,6 +150,22 @@ def search(ctx):
                 stats["quoted_spellings"] += 1
                 if RANKQ[d.action] < RANKQ[base_act]:
                     vios.append({"input": {"config": text, "cwd": cwd.replace(root, "<root>"), "spellings": [results[0][0].replace(root, "<root>"), sq_.replace(root, "<root>")]}, "observed": {"canonical": base_act, "quoted": d.action}, "required": "same file (bash removes the quotes): never judged more leniently than the canonical spelling", "oracle": "spelling-invariant(shell quoting)", "quoted_weaker": base_act == "deny" and d.action == "ask"})
+            # … in particular a detour through a *granted* directory whose `..` is quoted: G/".."/rest is parent(G)/rest
+            for rule in cfg.redirect_rules:
+                if rule.decision != "allow" or not rule.pattern.endswith("/**") or any(ch in rule.pattern[:-3] for ch in "*?[~"):
+                    continue
+                G = rule.pattern[:-3]
+                if not os.path.isabs(G) or not os.path.isdir(G) or os.path.realpath(G) != G:
+                    continue
+                rest = os.path.relpath(base_real, os.path.dirname(G))
+                if rest.startswith(".."):
+                    continue
+                sq_ = G + "/" + r.pick(['".."', "'..'", "\\.\\.", '..""', '"."".."']) .replace('"."".."', '".."') + "/" + rest
+                d = analyze("echo x > " + sq_, cfg, Path(cwd))
+                stats["evaluations"] += 1
+                stats["quoted_detours"] += 1
+                if RANKQ[d.action] < RANKQ[base_act]:
+                    vios.append({"input": {"config": text, "cwd": cwd.replace(root, "<root>"), "spellings": [results[0][0].replace(root, "<root>"), sq_.replace(root, "<root>")]}, "observed": {"canonical": base_act, "quoted": d.action}, "required": "same file (bash removes the quotes): never judged more leniently than the canonical spelling", "oracle": "spelling-invariant(shell quoting)", "quoted_weaker": base_act == "deny" and d.action == "ask"})
             # a symlink that leaves the granted directory
             if r.chance(0.15):
                 s = work + "/ok/escape/x"
